@@ -29,7 +29,7 @@ ASSUMPTIONS = [
     "lines whose fragments the sampler cannot instantiate are skipped and counted (skipped_unsampled)",
 ]
 EXHAUSTIVE = {"quick": True, "thorough": True}
-FLOORS = {"quick": {"A_matches": 5000, "A_reverse": 2000, "B_rules": 150, "B_ignore_rules": 100, "B_ignore_case_rules": 100, "C_lines": 1500, "C_rows": 10000, "B_inline_flag_rules": 400},
+FLOORS = {"quick": {"A_matches": 5000, "A_reverse": 2000, "B_rules": 150, "B_ignore_rules": 100, "B_ignore_case_rules": 100, "C_lines": 1500, "C_rows": 10000, "B_inline_flag_rules": 400, "B_nested_ignore_rules": 200},
           "thorough": {"A_matches": 5000, "A_reverse": 2000, "B_rules": 150, "B_ignore_rules": 100, "B_ignore_case_rules": 100, "C_lines": 1500, "C_rows": 10000}}
 PREFIXES = ["undo", "no", "delete", "remove", "-"]
 VENDOR_BY_PREFIX = {"undo": "huawei", "no": "cisco", "delete": "juniper", "remove": "routeros", "-": "pc"}
@@ -272,6 +272,34 @@ def run_B(spec, acc):
                     if got != e:
                         acc.violation("C07/B/acl-ignore-rule-%s-recogniser" % which, "an ignore rule of a filter ACL does not recognise the rows its pattern (or its negated form) means",
                                       {"pattern": "!" + q, "row": r, "vendor": vendor, "expected_key": e, "got_key": got})
+        # ... and the same ignore rules one and two levels down inside blocks
+        nq = [q for q in ipats if "\t" not in q][:30]
+        ntext = "\n".join("w%d *\n    !%s\n    v%d *\n        !%s" % (i, q, i, q) for i, q in enumerate(nq))
+        try:
+            ncomp = compile_acl_text(ntext, vendor, True)["local"]
+        except Exception as e:
+            acc.violation("C07/B/nested-ignore-rules-do-not-compile", "a filter ACL with ignore rules inside blocks is refused although ignore rules are allowed", {"vendor": vendor, "error": repr(e)[:200]})
+            ncomp = {}
+        for i, q in enumerate(nq):
+            blk = ncomp.get("w%d *" % i)
+            if blk is None:
+                continue
+            lvl1 = blk["children"]["local"]
+            r1 = lvl1.get("!" + q) or lvl1.get("!" + " ".join(q.split()))
+            blk2 = lvl1.get("v%d *" % i)
+            lvl2 = blk2["children"]["local"] if blk2 else {}
+            r2 = lvl2.get("!" + q) or lvl2.get("!" + " ".join(q.split()))
+            for depth, rule in ((1, r1), (2, r2)):
+                if rule is None or rule["type"] != "ignore":
+                    acc.violation("C07/B/rule-lost", "the ACL compiler lost an ignore rule of the text", {"pattern": "!" + q, "vendor": vendor, "depth": depth})
+                    continue
+                acc.count("B_nested_ignore_rules")
+                for r in probe_rows[:40]:
+                    m = rule["attrs"]["direct_regexp"].match(r)
+                    got = None if m is None else tuple(m.groups())
+                    if got != R.match(q, r):
+                        acc.violation("C07/B/acl-ignore-rule-direct-recogniser", "an ignore rule of a filter ACL does not recognise the rows its pattern (or its negated form) means",
+                                      {"pattern": "!" + q, "row": r, "vendor": vendor, "depth": depth, "expected_key": R.match(q, r), "got_key": got})
         # the same rows once more with %ignore_case (compiled AFTER their case-sensitive twins in this process): the flag belongs
         # to the rule, not to the row text
         ic = compile_patching_text("\n".join(q + "  %ignore_case" for q in ipats), vendor)["local"]
